@@ -305,19 +305,23 @@ void FloatOp(Diff& d, Rng& r, A& a, B& b, u32 op) {
   }
 }
 
-template <typename T>
+template <typename T, bool Volatile = false>
 void SequenceCase(Ctx& ctx, const char* tname) {
   yaclib::SetAtomicFailFrequency(0);  // weak CAS must then behave like strong
   T init = Operand<T>(ctx.rng);
-  yaclib_std::atomic<T> a{init};
-  std::atomic<T> b{init};
+  std::conditional_t<Volatile, volatile yaclib_std::atomic<T>, yaclib_std::atomic<T>> a{init};
+  std::conditional_t<Volatile, volatile std::atomic<T>, std::atomic<T>> b{init};
   Diff d{ctx, tname};
   int len = 30;
   ctx.Note("atomic<%s> init=%s, %d random operations in lock-step with std::atomic", tname, Show(init).c_str(), len);
   d.Stored<T>("constructor", a.load(), b.load(), Show(init));
   for (int i = 0; i < len && !d.stop; ++i) {
     u32 kind = ctx.rng.Below(3);
-    if (kind == 0 || std::is_same_v<T, bool>) {
+    if constexpr (Volatile) {
+      // (the wrapper's volatile arithmetic operators do not compile, note N6: volatile objects get the generic set)
+      (void)kind;
+      GenericOp<T>(d, ctx.rng, a, b, ctx.rng.Below(9));
+    } else if (kind == 0 || std::is_same_v<T, bool>) {
       GenericOp<T>(d, ctx.rng, a, b, ctx.rng.Below(9));
     } else if constexpr (std::is_integral_v<T> && !std::is_same_v<T, bool>) {
       IntegralOp<T>(d, ctx.rng, a, b, ctx.rng.Below(kIntegralOps), Operand<T>(ctx.rng));
@@ -555,6 +559,24 @@ void SpuriousCase(Ctx& ctx, const char* tname) {
     bool r2 = a.compare_exchange_strong(e2, des);
     ctx.Check(r2 && SameBits(a.load(), des), "spurious-strong", "C19",
               "atomic<%s>: compare_exchange_strong failed spuriously (expected matched, returned %d)", tname, (int)r2);
+    // every overload of compare_exchange_strong, still under "always fail": none may fail when expected matches
+    auto strong_forms = [&](auto& obj, const char* what) {
+      for (int form = 0; form < 3; ++form) {
+        obj.store(cur);
+        T e5 = cur;
+        bool r5 = form == 0   ? obj.compare_exchange_strong(e5, des)
+                  : form == 1 ? obj.compare_exchange_strong(e5, des, std::memory_order_acq_rel)
+                              : obj.compare_exchange_strong(e5, des, std::memory_order_acq_rel, std::memory_order_acquire);
+        ctx.Check(r5 && SameBits(obj.load(), des), "spurious-strong", "C19",
+                  "%s atomic<%s>: compare_exchange_strong (overload %d) failed spuriously", what, tname, form);
+      }
+    };
+    strong_forms(a, "");
+#if YACLIB_FAULT == 1
+    // (the FIBER implementation's volatile compare_exchange overloads do not compile, see DESIGN note N6)
+    volatile yaclib_std::atomic<T> va{cur};
+    strong_forms(va, "volatile");
+#endif
   }
   {
     yaclib::SetAtomicFailFrequency(0);
@@ -609,6 +631,20 @@ SEQ_CELL(i64, std::int64_t, "int64", 8)
 SEQ_CELL(u64, std::uint64_t, "uint64", 8)
 SEQ_CELL(f32, float, "float", 8)
 SEQ_CELL(f64, double, "double", 8)
+
+#if YACLIB_FAULT == 1
+// volatile-qualified objects go through a separate overload set of the wrapper (THREAD backend only, see N6)
+#  define VSEQ_CELL(ident, T, name, w)                                                                                 \
+    VF_CELL(vseq_##ident, "seq-volatile/" name, "C19", w) {                                                            \
+      SequenceCase<T, true>(ctx, name);                                                                                \
+    }
+VSEQ_CELL(b, bool, "bool", 1)
+VSEQ_CELL(i8, std::int8_t, "int8", 2)
+VSEQ_CELL(u16, std::uint16_t, "uint16", 2)
+VSEQ_CELL(i32, std::int32_t, "int32", 2)
+VSEQ_CELL(u64, std::uint64_t, "uint64", 2)
+VSEQ_CELL(f64, double, "double", 2)
+#endif
 
 VF_CELL(ptr_seq, "seq/pointer", "C19", 8) {
   PointerCase(ctx);
